@@ -22,6 +22,10 @@ FILES = {
     "pkg/sub/c.py": "z = set([4, 5])\nw = list(set([1]))\n",
     "d.py": "assert (2, 'x')\nq = set(['q'])\n",
     "e_bad.py": "def broken(:\n    pass\n",
+    "f_bad2.py": "print 'python 2'\n",
+    "pkg/g_bad3.py": "x = (\n",
+    "pkg/sub/h_bad4.py": "class :\n",
+    "pkg/bom.py": "\ufeffvalues = set([7, 8])\nassert (3, 'bom')\n",
     "notes.txt": "x = set([1])\n",
 }
 CODEMODS = "pixee:python/use-set-literal,pixee:python/fix-assert-tuple,pixee:python/use-generator,pixee:python/fix-mutable-params"
@@ -66,7 +70,7 @@ def run(chk: Check) -> None:
     from pathlib import Path
 
     order = sorted(py, key=lambda r: Path(r).parts)
-    n = len(order)  # 5 python files
+    n = len(order)
     scenarios = [_scenario("C11-ref", FILES, ["--max-workers", "1"])]
     meta = {"C11-ref": {"kind": "reference"}}
 
@@ -84,7 +88,9 @@ def run(chk: Check) -> None:
         # the model's tasks 1..4 are the first four files in input order; the fifth gets no delay
         delays = {order[t - 1]: step * (rank + 1) for rank, t in enumerate(o)}
         sid = f"C11-sched-{k}"
-        scenarios.append(_scenario(sid, FILES, ["--max-workers", str(w)], {"delay": delays}))
+        # alternate where the delay sits: before the file step, or between parsing and writing (inside the transformer)
+        inj = {"delay": delays} if k % 2 == 0 else {"delay_transform": delays}
+        scenarios.append(_scenario(sid, FILES, ["--max-workers", str(w)], inj))
         meta[sid] = {"kind": "schedule", "w": w, "completion_order": list(o)}
     # ---- B: worker counts with a uniform delay (every file overlaps if the pool lets it)
     for w in (1, 2, 4, 16):
